@@ -25,9 +25,11 @@ const (
 	srcBase   = 0x5_0000_0000
 	kargBase  = 0x0008_0000
 	codeBase  = 0x0010_0000
-	dataSize  = 8192
+	dataSize  = 65536 // 4 KB per wavefront, up to 16 wavefronts
 	maxTests  = 12
-	rowLanes  = 256
+	rowLanes  = 1024 // lanes per table / out / src row
+	tableRow  = rowLanes * 4
+	wideRow   = rowLanes * 16
 	numVGPR   = 32
 	numSGPR   = 24
 )
@@ -126,11 +128,11 @@ func buildKernel(sc *Scenario) ([]byte, []string, error) {
 			a.Flat("flat_store_dwordx4", 31, 0, 24, 10, 0)
 			a.SWaitcnt(0, 15)
 		}
-		// next rows: table += 1024, out += 4096, src += 4096
-		a.SLshlB32(14, K(1), K(10))
+		// next rows: table += 4096, out += 16384, src += 16384
+		a.SLshlB32(14, K(1), K(12))
 		a.SAddU32(8, S(8), S(14))
 		a.SAddcU32(9, S(9), K(0))
-		a.SLshlB32(14, K(1), K(12))
+		a.SLshlB32(14, K(1), K(14))
 		a.SAddU32(6, S(6), S(14))
 		a.SAddcU32(7, S(7), K(0))
 		a.SAddU32(10, S(10), S(14))
